@@ -523,6 +523,93 @@ def history_lines(rng, tier):
 # ------------------------------------------------------------------ registry
 P386 = ('C01', 'C04', 'C05', 'C08', 'C09', 'C10', 'C11', 'C18')   # also run on the GOARCH=386 build (portable ff code through the public API)
 
+def volume_search(pid, seed, tier):
+    """High-volume differential pass for the hash properties, used only after a proof obligation or
+    the correspondence broke without a failing input: uniformly random and small-valued inputs
+    (faults that hit about one input in 10^5 -- a dropped carry in a lazily reduced accumulator --
+    are out of reach of structured boundary inputs), sharded over all cores.  A search, not a proof."""
+    per = {'C10': 20000, 'C01': 700, 'C08': 2500}.get(pid)
+    if per is None:
+        return None
+    if tier != 'quick':
+        per *= 3
+    fast = None
+    if pid == 'C10':
+        # candidate finder: tools/goldfast evaluates the textbook permutation of Spec/GoldRef.v on
+        # uint64 (70 us per hash against 5 ms for the extracted model); it is not trusted -- a
+        # candidate counts only if the extracted model disagrees with the implementation on it
+        gf = BIN + '/goldfast'
+        if not os.path.exists(gf) or newer(V + '/tools/goldfast/main.go', gf):
+            sh('go build -o %s .' % gf, cwd=V + '/tools/goldfast', env=GOENV, timeout=600)
+        if os.path.exists(gf):
+            fast = '%s %s/Spec/GoldRef.v' % (gf, COQ)
+            per = 150000 if tier == 'quick' else 600000
+    shards = max(1, min(16, os.cpu_count() or 1))
+    t0 = time.time()
+    os.makedirs(WORK, exist_ok=True)
+    procs = []
+    for k in range(shards):
+        r = random.Random(seed * 1000003 + 7919 * k + 17)
+        lines = []
+        for i in range(per):
+            small = (i % 2 == 0)
+            if pid == 'C10':
+                v = [r.randrange(1000) if small else r.randrange(M.PG) for _ in range(12)]
+                lines.append('gold ' + M.lst(v))
+            elif pid == 'C01':
+                n = r.randrange(1, 17)
+                v = [r.randrange(1000) if small else r.randrange(M.Q) for _ in range(n)]
+                lines.append('poseidon 0 1 ' + M.lst(v))
+            else:
+                n = r.randrange(1, 5)
+                v = [r.randrange(1000) if small else r.randrange(M.Q) for _ in range(n)]
+                lines.append('mimchash nil ' + M.lst(v))
+        path = '%s/%s_vol%d.cases' % (WORK, pid, k)
+        open(path, 'w').write('\n'.join(lines) + '\n')
+        pi = subprocess.Popen('%s/harness -out %s.out %s' % (BIN, path, path), shell=True, stdout=subprocess.DEVNULL, stderr=subprocess.DEVNULL)
+        if fast:
+            pm = subprocess.Popen('%s %s %s.mod' % (fast, path, path), shell=True, stdout=subprocess.DEVNULL, stderr=subprocess.DEVNULL)
+        else:
+            pm = subprocess.Popen('%s/driver %s %s > %s.mod' % (BIN, TABLES, path, path), shell=True, stderr=subprocess.DEVNULL)
+        procs.append((path, lines, pi, pm))
+    hit = None
+    total = 0
+    for path, lines, pi, pm in procs:
+        try:
+            pi.wait(timeout=1500)
+            pm.wait(timeout=1500)
+        except subprocess.TimeoutExpired:
+            pi.kill()
+            pm.kill()
+            continue
+        try:
+            a = open(path + '.out').read().split('\n')
+            m = open(path + '.mod').read().split('\n')
+        except OSError:
+            continue
+        n = min(len(lines), len(a), len(m))
+        total += n
+        if hit is None:
+            cand = [i for i in range(n) if a[i] != m[i] and m[i] != '']
+            if fast and cand:
+                # confirm the candidates on the extracted Coq model
+                cl = [lines[i] for i in cand[:20]]
+                _, mo, _ = run_model(cl, pid + '_volconfirm')
+                for k_, i in enumerate(cand[:20]):
+                    if k_ < len(mo) and mo[k_] != a[i]:
+                        hit = (i, lines[i], a[i], mo[k_])
+                        break
+            elif cand:
+                i = cand[0]
+                hit = (i, lines[i], a[i], m[i])
+        for suf in ('', '.out', '.mod'):
+            try:
+                os.remove(path + suf)
+            except OSError:
+                pass
+    return dict(hit=hit, stats=dict(lines=total, shards=shards, wall_s=time.time() - t0, reference=('tools/goldfast (candidates confirmed on the extracted model)' if fast else 'extracted model')))
+
+
 SIMPLE = {
     'C01': gens.gen_C01, 'C04': gens.gen_C04, 'C05': gens.gen_C05, 'C06': gens.gen_C06, 'C07': gens.gen_C07,
     'C08': gens.gen_C08, 'C09': gens.gen_C09, 'C10': gens.gen_C10, 'C11': gens.gen_C11, 'C12': gens.gen_C12,
@@ -775,7 +862,17 @@ def main():
         budget = 300 if tier == 'quick' else 1500
         t_s = time.time()
         tried = 0
+        vol = volume_search(pid, seed, tier)
+        if vol is not None:
+            extra['volume_search'] = vol['stats']
+            notes.append('volume search: %(lines)d random hash inputs on %(shards)d cores in %(wall_s).0f s' % vol['stats'])
+            if vol['hit']:
+                i_, line_, a_, m_ = vol['hit']
+                violations.append(('implementation and model disagree on %s: impl %s, model %s [found by the volume search]' % (line_[:150], a_[:80], m_[:80]),
+                                   dict(kind='case', lines=[line_], impl=a_, model=m_)))
         for k in range(1, 61):
+            if violations:
+                break
             if time.time() - t_s > budget:
                 break
             env = dict(os.environ, VERIF_SUBSEARCH='1', VERIF_SEED=str(seed * 31 + 1000003 * k))
